@@ -92,6 +92,15 @@ def handmade():
                       "v": {"constructor": "NewB", "tags": ["k", "l", "m"]}}},
         {"services": {"w": {"tags": [{"name": "writer", "priority": 3}, "a", {"name": "z", "priority": 2}]},
                       "v": {"tags": [{"name": "m", "priority": 1}, "k"]}}}], "args": None})
+    # tags and calls written as objects / lists with keys and elements the documentation does not know (whatever the tool does with them)
+    sc.append({"name": "tag-objects-with-unknown-keys", "docs": [{"services": {
+        "s": {"constructor": "NewA", "tags": [{"name": "a", "priority": 1, "prio": 2, "nme": "x", "extra": "y", "weight": 3}, "b",
+                                               {"name": "c", "Priority": 1, "PRIORITY": 2, "tag": "z"}]},
+        "t": {"constructor": "NewB", "tags": [{"name": "a", "zz": 1, "yy": 2, "xx": 3, "ww": 4}]}},
+        "decorators": [{"tag": "a", "decorator": "Decorate", "argumentz": [1], "args": [2], "extra": 3, "more": 4}]}], "args": None})
+    sc.append({"name": "unknown-top-level-and-service-keys", "docs": [{"servicez": {}, "parameterz": {}, "extra1": 1, "extra2": 2, "extra3": 3,
+        "meta": {"pkgg": "x", "importz": {}, "functionz": {}, "zz": 1}, "parameters": {"p": 1},
+        "services": {"s": {"constructor": "NewA", "argumentz": [1], "tagz": ["a"], "callz": [], "fieldz": {}, "scopee": "shared", "gettr": "G"}}}], "args": None})
     # keys that differ only by case
     sc.append({"name": "case-colliding-keys", "docs": [{"parameters": {"db": 1, "DB": 2, "Db": 3, "dB": 4, "dsn": "%db%", "DSN": "%DB%"},
                                                         "services": {"svc": {"constructor": "NewA", "fields": {"Ab": 1, "aB": 2, "AB": 3}},
@@ -144,6 +153,14 @@ def run_c08(tier):
             env = {"PATH": os.environ.get("PATH", ""), "HOME": "/nonexistent%d" % k, "LANG": rng.choice(["C", "en_US.UTF-8", "pl_PL"]),
                    "TZ": rng.choice(["UTC", "Asia/Tokyo"]), "VERIF_NOISE_%d" % k: str(rng.random()), "NO_COLOR": "1",
                    "GOMAXPROCS": str(rng.choice([1, 2, 8]))}
+            if k % 2 == 1:      # as started by `go generate`, or from a shell that exports the usual Go / CI variables
+                env.update({"GOPACKAGE": rng.choice(["storage", "main", "wiring"]), "GOFILE": "gen.go", "GOLINE": str(k), "GOARCH": "arm64",
+                            "GOOS": "plan9", "GOFLAGS": "-mod=mod", "GO111MODULE": rng.choice(["on", "auto"]), "CI": "true",
+                            "GONTAINER_PKG": "other", "PKG": "other", "PACKAGE": "other", "USER": "u%d" % k, "PWD": "/elsewhere",
+                            "TMPDIR": os.environ.get("TMPDIR", "/tmp"), "COLUMNS": str(rng.choice([40, 80, 200])), "TERM": rng.choice(["dumb", "xterm"])})
+            if k % 4 in (2, 3):     # the -o path holds something else already (longer, shorter, not Go at all)
+                with open(os.path.join(d, "out.go"), "w") as fh:
+                    fh.write(rng.choice(["// old\n" * 5000, "x", "package old\n\nfunc f() {}\n" + "// filler\n" * rng.randrange(1, 3000)]))
             jobs.append((si, k, perm, d, args, env))
     results = [None] * len(jobs)
     q = queue.Queue()
@@ -158,7 +175,8 @@ def run_c08(tier):
                 return
             p = subprocess.run([tool, "build"] + args + ["-o", "out.go"], cwd=d, env=env, stdout=subprocess.PIPE, stderr=subprocess.PIPE, timeout=120)
             outp = os.path.join(d, "out.go")
-            data = open(outp, "rb").read() if os.path.exists(outp) else b""
+            # a failing run leaves the -o path as it was (C10's business): only what a successful run wrote is "the generated file"
+            data = open(outp, "rb").read() if (os.path.exists(outp) and p.returncode == 0) else b""
             results[i] = (p.returncode, core.sha(data)[:16] if data else "none", core.sha(p.stdout)[:16], p.stdout)
     ts = [threading.Thread(target=worker) for _ in range(core.NCPU)]
     for t in ts:
